@@ -186,7 +186,12 @@ theorem StepR.free {sh th o} {rid : Nat} (h : StepR sh th o) (hregs : ∀ r ∈ 
     simp only [pcReg, Option.some.injEq]
     rintro _ rfl
     exact a.2 _ hh
-  case lock r a f fs hpc' hfr' hfree =>
+  case lockDeadSync r a f fs hpc' hfr' hj hfree hl hsh =>
+    obtain ⟨⟨a', b⟩, c⟩ := split f fs hfr'
+    exact ⟨hsh.free a' b c (hjob (by simp [hpc'])), by simp [hsh.new_nil]⟩
+  case lockDeadJob r a j f hpc' hj hfr' hfree hl =>
+    exact ⟨⟨by simp, by simp [pcReg], fun _ => hjob (by simp [hpc'])⟩, by simp⟩
+  case lock r a f fs hpc' hfr' hfree hl =>
     obtain ⟨a', c⟩ := split f fs hfr'
     have hr := hpc r (by simp [hpc', pcReg])
     refine ⟨⟨?_, ?_, fun _ => hjob (by simp [hpc'])⟩, by simp⟩
@@ -370,7 +375,12 @@ theorem step_noEnt {sh : Shared} {th : Thread} {o : Out} {rid : Nat} (h : step s
     rename_i r a hpc
     have hr := hpcr r (by simp [hpc, pcReg])
     split at h
-    · cases h; exact one _ (isEnt_enter hr)
+    · rename_i f fs hfr'
+      split at h
+      · split at h
+        · cases h; exact .nil _
+        · cases h; exact (noEnt_all rid _ sh th f _ [] (hrest f _ hfr') (.nil _)).1
+      · cases h; exact one _ (isEnt_enter hr)
     · cases h
   · -- enter
     split at h
